@@ -1,7 +1,877 @@
-//! C40 — not implemented yet.
-use vmon::report::Args;
+//! C40 — Arrow helper transformations preserve logical values and validity.
+//!
+//! Oracle: straightforward models over `vmon::table::cell_at` logical cells for deep copy, take,
+//! projection, merge / merge_with_schema, list trimming / garbage-null filtering, struct slicing /
+//! null push-down, and JSON <-> JSONB conversion + path extraction against serde_json.
+use crate::prng::{fnv, Rng};
+use arrow_array::*;
+use arrow_buffer::{BooleanBuffer, NullBuffer, OffsetBuffer, ScalarBuffer};
+use arrow_data::ArrayDataBuilder;
+use arrow_schema::{DataType, Field, Fields, Schema};
+use lance_arrow::deepcopy::{deep_copy_array, deep_copy_array_sliced, deep_copy_batch, deep_copy_batch_sliced, deep_copy_nulls};
+use lance_arrow::json::{decode_json, encode_json, JsonArray};
+use lance_arrow::list::ListArrayExt;
+use lance_arrow::r#struct::StructArrayExt;
+use lance_arrow::RecordBatchExt;
+use serde_json::{json, Value};
+use std::panic::{catch_unwind, AssertUnwindSafe};
+use std::sync::atomic::{AtomicU64, Ordering};
+use std::sync::Arc;
+use vmon::report::{Args, Report};
+use vmon::table::{cell_at, Cell};
 
-pub fn run(_args: &Args) -> i32 {
-    eprintln!("HARNESS-ERROR C40 not implemented");
-    2
+// ---------------------------------------------------------------------------------------------
+// generators
+// ---------------------------------------------------------------------------------------------
+
+fn gen_type(rng: &mut Rng, depth: usize) -> DataType {
+    let leaf = depth == 0 || rng.chance(2, 5);
+    if leaf {
+        return rng.pick(&[DataType::Int32, DataType::Int64, DataType::Float64, DataType::Utf8, DataType::Boolean, DataType::LargeUtf8, DataType::UInt8]).clone();
+    }
+    match rng.below(4) {
+        0 => {
+            let k = rng.urange(1, 3);
+            DataType::Struct((0..k).map(|i| Field::new(format!("f{i}"), gen_type(rng, depth - 1), true)).collect::<Vec<_>>().into())
+        }
+        1 => DataType::List(Arc::new(Field::new("item", gen_type(rng, depth - 1), true))),
+        2 => DataType::LargeList(Arc::new(Field::new("item", gen_type(rng, depth - 1), true))),
+        _ => DataType::FixedSizeList(Arc::new(Field::new("item", gen_type(rng, depth - 1), true)), rng.range(1, 3) as i32),
+    }
+}
+
+fn gen_validity(rng: &mut Rng, n: usize) -> Option<NullBuffer> {
+    match rng.below(4) {
+        0 => None,
+        1 => Some(NullBuffer::new(BooleanBuffer::from((0..n).map(|_| !rng.chance(1, 8)).collect::<Vec<_>>()))),
+        2 => Some(NullBuffer::new(BooleanBuffer::from((0..n).map(|_| rng.bool()).collect::<Vec<_>>()))),
+        _ => Some(NullBuffer::new(BooleanBuffer::from(vec![true; n]))),
+    }
+}
+
+/// random array of `dt` with nulls at every level; lists may keep garbage behind nulls and offsets that
+/// neither start at 0 nor cover the whole child
+fn gen_array(rng: &mut Rng, dt: &DataType, n: usize, counter: &mut i64) -> ArrayRef {
+    let nulls = gen_validity(rng, n);
+    match dt {
+        DataType::Int32 => Arc::new(Int32Array::new((0..n).map(|_| { *counter += 1; *counter as i32 }).collect::<Vec<_>>().into(), nulls)),
+        DataType::Int64 => Arc::new(Int64Array::new((0..n).map(|_| { *counter += 1; *counter * 1_000_003 }).collect::<Vec<_>>().into(), nulls)),
+        DataType::UInt8 => Arc::new(UInt8Array::new((0..n).map(|_| rng.next_u32() as u8).collect::<Vec<_>>().into(), nulls)),
+        DataType::Float64 => Arc::new(Float64Array::new((0..n).map(|_| { *counter += 1; *counter as f64 * 0.5 }).collect::<Vec<_>>().into(), nulls)),
+        DataType::Boolean => Arc::new(BooleanArray::new(BooleanBuffer::from((0..n).map(|_| rng.bool()).collect::<Vec<_>>()), nulls)),
+        DataType::Utf8 => {
+            let v: Vec<String> = (0..n).map(|_| { *counter += 1; format!("s{}{}", counter, "é".repeat(rng.usize_below(3))) }).collect();
+            let a = StringArray::from(v);
+            Arc::new(StringArray::new(a.offsets().clone(), a.values().clone(), nulls))
+        }
+        DataType::LargeUtf8 => {
+            let v: Vec<String> = (0..n).map(|_| { *counter += 1; format!("L{counter}") }).collect();
+            let a = LargeStringArray::from(v);
+            Arc::new(LargeStringArray::new(a.offsets().clone(), a.values().clone(), nulls))
+        }
+        DataType::Struct(fields) => {
+            let cols: Vec<ArrayRef> = fields.iter().map(|f| gen_array(rng, f.data_type(), n, counter)).collect();
+            Arc::new(StructArray::new(fields.clone(), cols, nulls))
+        }
+        DataType::FixedSizeList(f, d) => {
+            let child = gen_array(rng, f.data_type(), n * *d as usize, counter);
+            Arc::new(FixedSizeListArray::new(f.clone(), *d, child, nulls))
+        }
+        DataType::List(f) | DataType::LargeList(f) => {
+            let lead = if rng.chance(1, 3) { rng.urange(1, 4) } else { 0 };
+            let trail = if rng.chance(1, 3) { rng.urange(1, 4) } else { 0 };
+            let mut offs = vec![lead as i64];
+            for i in 0..n {
+                let is_null = nulls.as_ref().map(|v| v.is_null(i)).unwrap_or(false);
+                let len = if is_null { if rng.bool() { 0 } else { rng.urange(1, 3) } } else { rng.urange(0, 4) };
+                offs.push(offs.last().unwrap() + len as i64);
+            }
+            let total = *offs.last().unwrap() as usize + trail;
+            let child = gen_array(rng, f.data_type(), total, counter);
+            if matches!(dt, DataType::List(_)) {
+                Arc::new(ListArray::new(f.clone(), OffsetBuffer::new(ScalarBuffer::from(offs.iter().map(|x| *x as i32).collect::<Vec<_>>())), child, nulls))
+            } else {
+                Arc::new(LargeListArray::new(f.clone(), OffsetBuffer::new(ScalarBuffer::from(offs)), child, nulls))
+            }
+        }
+        _ => unreachable!(),
+    }
+}
+
+fn maybe_slice(rng: &mut Rng, a: ArrayRef) -> ArrayRef {
+    if a.len() > 2 && rng.bool() {
+        let off = rng.urange(0, a.len() / 2);
+        let len = rng.urange(0, a.len() - off);
+        a.slice(off, len)
+    } else {
+        a
+    }
+}
+
+fn cells(a: &dyn Array) -> Vec<Cell> {
+    (0..a.len()).map(|i| cell_at(a, i)).collect()
+}
+
+fn batch_cells(b: &RecordBatch) -> Vec<Vec<(String, Cell)>> {
+    (0..b.num_rows())
+        .map(|i| b.schema().fields().iter().zip(b.columns()).map(|(f, c)| (f.name().clone(), cell_at(c.as_ref(), i))).collect())
+        .collect()
+}
+
+struct Ctx<'a> {
+    report: &'a Report,
+    seed: u64,
+    case: u64,
+}
+
+impl Ctx<'_> {
+    fn bad(&self, sig: &str, what: &str, detail: Value) {
+        self.report.violation(sig, what, json!({"seed": self.seed, "case": self.case, "detail": detail}));
+    }
+    fn guard<R>(&self, helper: &str, f: impl FnOnce() -> R) -> Option<R> {
+        match catch_unwind(AssertUnwindSafe(f)) {
+            Ok(r) => Some(r),
+            Err(p) => {
+                let m = p.downcast_ref::<String>().cloned().or_else(|| p.downcast_ref::<&str>().map(|s| s.to_string())).unwrap_or_default();
+                self.bad(&format!("{helper}-panic"), "helper panicked on a valid input", json!({"panic": m}));
+                None
+            }
+        }
+    }
+}
+
+fn first_diff(a: &[Cell], b: &[Cell]) -> Value {
+    if a.len() != b.len() {
+        return json!({"expected_len": a.len(), "got_len": b.len()});
+    }
+    for (i, (x, y)) in a.iter().zip(b.iter()).enumerate() {
+        if x != y {
+            return json!({"row": i, "expected": x.render(), "got": y.render()});
+        }
+    }
+    json!("identical")
+}
+
+// ---------------------------------------------------------------------------------------------
+// individual helper checks
+// ---------------------------------------------------------------------------------------------
+
+/// some ArrayData in the tree has a non-zero `offset` (in arrow-rs only bit-packed arrays keep one after
+/// slicing; FFI / arrow-cpp data can have one anywhere)
+fn arraydata_offset(a: &dyn Array) -> bool {
+    fn go(d: &arrow_data::ArrayData) -> bool {
+        d.offset() != 0 || d.child_data().iter().any(go)
+    }
+    go(&a.to_data())
+}
+
+fn check_deepcopy(cx: &Ctx, rng: &mut Rng, arr: &ArrayRef, corrupt: bool) {
+    let want = cells(arr.as_ref());
+    for (name, f) in [("deep_copy_array", deep_copy_array as fn(&dyn Array) -> ArrayRef), ("deep_copy_array_sliced", deep_copy_array_sliced)] {
+        let gname = if name == "deep_copy_array_sliced" && arraydata_offset(arr.as_ref()) { "deep_copy_array_sliced-nonzero-arraydata-offset" } else { name };
+        if let Some(out) = cx.guard(gname, || f(arr.as_ref())) {
+            let out = if corrupt && out.len() > 1 { out.slice(1, out.len() - 1) } else { out };
+            let got = cells(out.as_ref());
+            if out.data_type() != arr.data_type() || got != want {
+                let cls = if name == "deep_copy_array_sliced" && arraydata_offset(arr.as_ref()) { "nonzero-arraydata-offset".to_string() } else { type_class(arr.data_type()) };
+                cx.bad(&format!("{name}-values-{cls}"), "deep copy changed logical values / validity", json!({"type": format!("{}", arr.data_type()), "offset": arr.offset(), "diff": first_diff(&want, &got)}));
+            } else {
+                cx.report.count("deep_copies_compared", 1);
+            }
+        }
+    }
+    if let Some(n) = arr.nulls() {
+        let c = deep_copy_nulls(Some(n));
+        let same = c.as_ref().map(|c| c.len() == n.len() && (0..n.len()).all(|i| c.is_valid(i) == n.is_valid(i))).unwrap_or(false);
+        if !same {
+            cx.bad("deep_copy_nulls-values", "deep_copy_nulls changed validity", json!({"offset": n.offset(), "len": n.len()}));
+        }
+    }
+    let _ = rng;
+}
+
+/// true iff the array (or a nested child) is physically offset: ArrayData offset, validity bit offset
+/// or list offsets that do not start at 0
+fn has_offset(a: &dyn Array) -> bool {
+    let d = a.to_data();
+    if d.offset() != 0 || a.nulls().map(|n| n.offset() != 0).unwrap_or(false) {
+        return true;
+    }
+    match a.data_type() {
+        DataType::Struct(_) => a.as_any().downcast_ref::<StructArray>().unwrap().columns().iter().any(|c| has_offset(c.as_ref())),
+        DataType::List(_) => {
+            let l = a.as_any().downcast_ref::<ListArray>().unwrap();
+            l.offsets()[0] != 0 || has_offset(l.values().as_ref())
+        }
+        DataType::LargeList(_) => {
+            let l = a.as_any().downcast_ref::<LargeListArray>().unwrap();
+            l.offsets()[0] != 0 || has_offset(l.values().as_ref())
+        }
+        DataType::FixedSizeList(_, _) => has_offset(a.as_any().downcast_ref::<FixedSizeListArray>().unwrap().values().as_ref()),
+        _ => false,
+    }
+}
+
+/// true iff some struct array (at any depth) is non-empty and entirely null: lance-arrow documents
+/// such structs as "placeholders" whose validity is dropped by merge
+fn has_all_null_struct(a: &dyn Array) -> bool {
+    match a.data_type() {
+        DataType::Struct(_) => {
+            let s = a.as_any().downcast_ref::<StructArray>().unwrap();
+            (s.len() > 0 && s.null_count() == s.len()) || s.columns().iter().any(|c| has_all_null_struct(c.as_ref()))
+        }
+        DataType::List(_) => has_all_null_struct(a.as_any().downcast_ref::<ListArray>().unwrap().values().as_ref()) || (a.len() > 0 && a.null_count() == a.len()),
+        DataType::LargeList(_) => has_all_null_struct(a.as_any().downcast_ref::<LargeListArray>().unwrap().values().as_ref()) || (a.len() > 0 && a.null_count() == a.len()),
+        DataType::FixedSizeList(_, _) => has_all_null_struct(a.as_any().downcast_ref::<FixedSizeListArray>().unwrap().values().as_ref()) || (a.len() > 0 && a.null_count() == a.len()),
+        _ => false,
+    }
+}
+
+fn type_class(dt: &DataType) -> String {
+    match dt {
+        DataType::Struct(_) => "struct".into(),
+        DataType::List(f) => format!("list<{}>", type_class(f.data_type())),
+        DataType::LargeList(f) => format!("largelist<{}>", type_class(f.data_type())),
+        DataType::FixedSizeList(f, _) => format!("fsl<{}>", type_class(f.data_type())),
+        DataType::Utf8 | DataType::LargeUtf8 => "utf8".into(),
+        DataType::Boolean => "bool".into(),
+        _ => "prim".into(),
+    }
+}
+
+fn check_list_helpers(cx: &Ctx, arr: &ArrayRef, corrupt: bool) {
+    fn go<O: OffsetSizeTrait>(cx: &Ctx, l: &GenericListArray<O>, corrupt: bool) {
+        let want = cells(l);
+        // trimmed_values: exactly the child rows referenced by [first offset, last offset)
+        if let Some(t) = cx.guard("trimmed_values", || l.trimmed_values()) {
+            let a = l.offsets().first().map(|x| x.as_usize()).unwrap_or(0);
+            let b = l.offsets().last().map(|x| x.as_usize()).unwrap_or(0);
+            let model: Vec<Cell> = (a..b).map(|i| cell_at(l.values().as_ref(), i)).collect();
+            let got = cells(t.as_ref());
+            if got != model {
+                cx.bad("trimmed_values-values", "trimmed_values is not the child range [first offset, last offset)", json!({"first": a, "last": b, "child_len": l.values().len(), "diff": first_diff(&model, &got)}));
+            } else {
+                cx.report.count("trimmed_values_compared", 1);
+            }
+        }
+        if let Some(f) = cx.guard("filter_garbage_nulls", || l.filter_garbage_nulls()) {
+            let f = if corrupt && f.len() > 1 { f.slice(1, f.len() - 1) } else { f };
+            let got = cells(&f);
+            if got != want {
+                cx.bad("filter_garbage_nulls-values", "filter_garbage_nulls changed the logical lists", json!({"diff": first_diff(&want, &got)}));
+                return;
+            }
+            // documented: "The output list will always have zero-length nulls"
+            let garbage = (0..f.len()).any(|i| f.is_null(i) && f.value_length(i) != O::zero());
+            if garbage {
+                cx.bad("filter_garbage_nulls-nonzero-null", "filter_garbage_nulls left a null list with non-zero length", json!({}));
+                return;
+            }
+            // and then the trimmed values are exactly the items of the valid lists, in order
+            if let Some(t) = cx.guard("trimmed_values", || f.trimmed_values()) {
+                let mut model = vec![];
+                for i in 0..l.len() {
+                    if l.is_valid(i) {
+                        let v = l.value(i);
+                        model.extend(cells(v.as_ref()));
+                    }
+                }
+                let got = cells(t.as_ref());
+                if got != model {
+                    cx.bad("filter_garbage_nulls-trimmed-values", "items after garbage filtering + trimming are not the items of the valid lists", json!({"diff": first_diff(&model, &got)}));
+                } else {
+                    cx.report.count("garbage_filtered_lists_compared", 1);
+                }
+            }
+        }
+    }
+    match arr.data_type() {
+        DataType::List(_) => go::<i32>(cx, arr.as_any().downcast_ref::<ListArray>().unwrap(), corrupt),
+        DataType::LargeList(_) => go::<i64>(cx, arr.as_any().downcast_ref::<LargeListArray>().unwrap(), corrupt),
+        _ => {}
+    }
+}
+
+fn check_struct_helpers(cx: &Ctx, rng: &mut Rng, arr: &ArrayRef) {
+    let DataType::Struct(_) = arr.data_type() else { return };
+    let s = arr.as_any().downcast_ref::<StructArray>().unwrap();
+    let want = cells(s);
+    if let Some(Ok(p)) = cx.guard("pushdown_nulls", || s.pushdown_nulls()) {
+        let got = cells(&p);
+        if got != want {
+            cx.bad("pushdown_nulls-values", "pushdown_nulls changed logical values", json!({"diff": first_diff(&want, &got)}));
+        } else {
+            // every child is null wherever the struct is null
+            let ok = (0..p.len()).all(|i| p.is_valid(i) || p.columns().iter().all(|c| c.is_null(i) || c.data_type() == &DataType::Null));
+            if !ok {
+                cx.bad("pushdown_nulls-not-pushed", "a child is valid under a null struct after pushdown_nulls", json!({}));
+            } else {
+                cx.report.count("struct_pushdowns_compared", 1);
+            }
+        }
+    }
+    // arrow-cpp style slicing: offset on the struct, children unsliced
+    if s.len() > 2 {
+        let off = rng.urange(1, s.len() / 2);
+        let len = rng.urange(0, s.len() - off);
+        let data = s.to_data();
+        let built = ArrayDataBuilder::new(data.data_type().clone())
+            .len(len)
+            .offset(off)
+            .nulls(s.nulls().map(|n| n.slice(0, n.len())))
+            .child_data(data.child_data().to_vec())
+            .build();
+        // note: nulls() given to the builder are taken relative to offset 0 by arrow; rebuild explicitly
+        let built = match built {
+            Ok(_) => ArrayDataBuilder::new(data.data_type().clone())
+                .len(len)
+                .offset(off)
+                .null_bit_buffer(s.nulls().map(|n| {
+                    let bools: Vec<bool> = (0..n.len()).map(|i| n.is_valid(i)).collect();
+                    BooleanBuffer::from(bools).into_inner()
+                }))
+                .child_data(data.child_data().to_vec())
+                .build(),
+            Err(e) => Err(e),
+        };
+        if let Ok(d) = built {
+            let cpp = StructArray::from(d);
+            let model: Vec<Cell> = want[off..off + len].to_vec();
+            if let Some(r) = cx.guard("normalize_slicing", || cpp.normalize_slicing()) {
+                match r {
+                    Ok(nz) => {
+                        let got = cells(&nz);
+                        let kids_ok = nz.columns().iter().all(|c| c.len() == nz.len());
+                        if got != model || !kids_ok {
+                            cx.bad("normalize_slicing-values", "normalize_slicing changed logical values / left children unsliced", json!({"offset": off, "len": len, "children_sliced": kids_ok, "diff": first_diff(&model, &got)}));
+                        } else {
+                            cx.report.count("struct_slicings_compared", 1);
+                        }
+                    }
+                    Err(e) => cx.bad("normalize_slicing-err", "normalize_slicing rejected a valid arrow-cpp style sliced struct", json!({"error": e.to_string()})),
+                }
+            }
+        }
+    }
+}
+
+/// project a logical struct cell by a (sub)schema
+fn project_cell(c: &Cell, fields: &Fields) -> Cell {
+    match c {
+        Cell::Struct(kids) => Cell::Struct(
+            fields
+                .iter()
+                .map(|f| {
+                    let k = kids.iter().find(|(n, _)| n == f.name()).map(|(_, v)| v.clone()).unwrap_or(Cell::Null);
+                    let k = match f.data_type() {
+                        DataType::Struct(sub) => project_cell(&k, sub),
+                        _ => k,
+                    };
+                    (f.name().clone(), k)
+                })
+                .collect(),
+        ),
+        other => other.clone(),
+    }
+}
+
+fn sub_fields(rng: &mut Rng, fields: &Fields, top: bool) -> Fields {
+    let mut idx: Vec<usize> = (0..fields.len()).collect();
+    if top {
+        rng.shuffle(&mut idx);
+    }
+    let keep = rng.urange(1, fields.len());
+    idx.truncate(keep);
+    idx.iter()
+        .map(|i| {
+            let f = &fields[*i];
+            match f.data_type() {
+                DataType::Struct(sub) if rng.bool() => Arc::new(Field::new(f.name(), DataType::Struct(sub_fields(rng, sub, false)), f.is_nullable())),
+                _ => f.clone(),
+            }
+        })
+        .collect::<Vec<_>>()
+        .into()
+}
+
+fn check_batch_helpers(cx: &Ctx, rng: &mut Rng, batch: &RecordBatch, corrupt: bool) {
+    let rows = batch_cells(batch);
+    // --- take ---
+    if batch.num_rows() > 0 {
+        let k = rng.urange(0, batch.num_rows() * 2);
+        let idx: Vec<u32> = (0..k).map(|_| rng.usize_below(batch.num_rows()) as u32).collect();
+        if let Some(Ok(t)) = cx.guard("take", || batch.take(&UInt32Array::from(idx.clone()))) {
+            let got = batch_cells(&t);
+            let mut want: Vec<_> = idx.iter().map(|i| rows[*i as usize].clone()).collect();
+            if corrupt && want.len() > 1 {
+                want.swap(0, 1);
+            }
+            if got != want && !(corrupt && want.len() <= 1) {
+                let pos = got.iter().zip(want.iter()).position(|(a, b)| a != b);
+                cx.bad("take-values", "RecordBatchExt::take returned other rows than the indices select", json!({"indices_head": idx.iter().take(10).collect::<Vec<_>>(), "first_bad": pos, "n_got": got.len(), "n_want": want.len()}));
+            } else {
+                cx.report.count("take_rows_compared", k as u64);
+            }
+        }
+    }
+    // --- deep copy of batches (sliced) ---
+    for (name, f) in [("deep_copy_batch", deep_copy_batch as fn(&RecordBatch) -> std::result::Result<RecordBatch, arrow_schema::ArrowError>), ("deep_copy_batch_sliced", deep_copy_batch_sliced), ("shrink_to_fit", |b: &RecordBatch| b.shrink_to_fit())] {
+        let pre = name != "deep_copy_batch" && batch.columns().iter().any(|c| arraydata_offset(c.as_ref()));
+        let gname = if pre { format!("{name}-nonzero-arraydata-offset") } else { name.to_string() };
+        if let Some(r) = cx.guard(&gname, || f(batch)) {
+            match r {
+                Ok(b) => {
+                    if batch_cells(&b) != rows || b.schema() != batch.schema() {
+                        cx.bad(&format!("{gname}-values"), "batch deep copy changed values / schema", json!({}));
+                    } else {
+                        cx.report.count("batch_copies_compared", 1);
+                    }
+                }
+                Err(e) => cx.bad(&format!("{name}-err"), "batch deep copy failed", json!({"error": e.to_string()})),
+            }
+        }
+    }
+    // --- project_by_schema ---
+    let sub = sub_fields(rng, batch.schema().fields(), true);
+    let sub_schema = Schema::new(sub.clone());
+    if let Some(r) = cx.guard("project_by_schema", || batch.project_by_schema(&sub_schema)) {
+        match r {
+            Ok(p) => {
+                let got = batch_cells(&p);
+                let want: Vec<Vec<(String, Cell)>> = rows
+                    .iter()
+                    .map(|r| {
+                        let c = project_cell(&Cell::Struct(r.clone()), &sub);
+                        match c {
+                            Cell::Struct(k) => k,
+                            _ => vec![],
+                        }
+                    })
+                    .collect();
+                if got != want {
+                    let pos = got.iter().zip(want.iter()).position(|(a, b)| a != b);
+                    cx.bad("project_by_schema-values", "projection changed values / validity / field order", json!({"schema": format!("{sub_schema:?}"), "first_bad_row": pos, "expected": pos.map(|p| Cell::Struct(want[p].clone()).render()), "got": pos.map(|p| Cell::Struct(got[p].clone()).render())}));
+                } else {
+                    cx.report.count("projections_compared", 1);
+                }
+            }
+            Err(e) => cx.bad("project_by_schema-err", "projection by a sub-schema of the batch failed", json!({"error": e.to_string(), "schema": format!("{sub_schema:?}")})),
+        }
+    }
+}
+
+/// split a struct array's leaves between a left and a right array that keep identical validity /
+/// offsets on the shared ancestors (what reading two column groups of the same rows yields)
+fn split(rng: &mut Rng, arr: &ArrayRef, force: Option<bool>) -> (Option<ArrayRef>, Option<ArrayRef>) {
+    match arr.data_type() {
+        DataType::Struct(fields) if fields.len() > 1 && force.is_none() => {
+            let s = arr.as_any().downcast_ref::<StructArray>().unwrap();
+            let mut lf = vec![];
+            let mut lc = vec![];
+            let mut rf = vec![];
+            let mut rc = vec![];
+            for (i, (f, c)) in fields.iter().zip(s.columns()).enumerate() {
+                // first child left, second right, others random; nested structs split recursively
+                let side = if i == 0 { Some(true) } else if i == 1 { Some(false) } else { None };
+                let (l, r) = match (side, f.data_type()) {
+                    (None, DataType::Struct(_)) => split(rng, c, None),
+                    (Some(b), _) => split(rng, c, Some(b)),
+                    (None, _) => {
+                        let b = rng.bool();
+                        split(rng, c, Some(b))
+                    }
+                };
+                if let Some(l) = l {
+                    lf.push(Field::new(f.name(), l.data_type().clone(), true));
+                    lc.push(l);
+                }
+                if let Some(r) = r {
+                    rf.push(Field::new(f.name(), r.data_type().clone(), true));
+                    rc.push(r);
+                }
+            }
+            let l: ArrayRef = Arc::new(StructArray::new(lf.into(), lc, s.nulls().cloned()));
+            let r: ArrayRef = Arc::new(StructArray::new(rf.into(), rc, s.nulls().cloned()));
+            (Some(l), Some(r))
+        }
+        _ => match force.unwrap_or_else(|| rng.bool()) {
+            true => (Some(arr.clone()), None),
+            false => (None, Some(arr.clone())),
+        },
+    }
+}
+
+/// model of `merge`: left fields first (recursively merged with same-named right structs), then
+/// right-only fields
+fn merge_model(l: &Cell, r: &Cell) -> Cell {
+    match (l, r) {
+        (Cell::Struct(a), Cell::Struct(b)) => {
+            let mut out = vec![];
+            for (n, v) in a {
+                match b.iter().find(|(m, _)| m == n) {
+                    Some((_, w)) => out.push((n.clone(), merge_model(v, w))),
+                    None => out.push((n.clone(), v.clone())),
+                }
+            }
+            for (n, w) in b {
+                if !a.iter().any(|(m, _)| m == n) {
+                    out.push((n.clone(), w.clone()));
+                }
+            }
+            Cell::Struct(out)
+        }
+        (Cell::Null, Cell::Null) => Cell::Null,
+        (x, _) => x.clone(),
+    }
+}
+
+fn check_merge(cx: &Ctx, rng: &mut Rng, batch: &RecordBatch) {
+    // build left / right from the batch: plain columns go to one side (some to both), structs are split
+    let mut lf = vec![];
+    let mut lc = vec![];
+    let mut rf = vec![];
+    let mut rc = vec![];
+    let mut overlap = vec![];
+    for (f, c) in batch.schema().fields().iter().zip(batch.columns()) {
+        let both = rng.chance(1, 5);
+        let (l, r) = if both { (Some(c.clone()), Some(c.clone())) } else { split(rng, c, None) };
+        if both {
+            overlap.push(type_class(f.data_type()));
+        }
+        if let Some(l) = l {
+            lf.push(Field::new(f.name(), l.data_type().clone(), true));
+            lc.push(l);
+        }
+        if let Some(r) = r {
+            rf.push(Field::new(f.name(), r.data_type().clone(), true));
+            rc.push(r);
+        }
+    }
+    if lf.is_empty() || rf.is_empty() {
+        return;
+    }
+    if lc.iter().chain(rc.iter()).any(|c| has_all_null_struct(c.as_ref())) {
+        cx.report.count("merge_skipped_entirely_null_struct_or_list", 1);
+        return;
+    }
+    let offset_inputs = lc.iter().chain(rc.iter()).any(|c| has_offset(c.as_ref()));
+    let pre = if offset_inputs { "-offset-inputs" } else { "" };
+    let left = RecordBatch::try_new(Arc::new(Schema::new(lf)), lc).unwrap();
+    let right = RecordBatch::try_new(Arc::new(Schema::new(rf)), rc).unwrap();
+    let lrows = batch_cells(&left);
+    let rrows = batch_cells(&right);
+    let want: Vec<Cell> = lrows.iter().zip(rrows.iter()).map(|(a, b)| merge_model(&Cell::Struct(a.clone()), &Cell::Struct(b.clone()))).collect();
+    let desc = json!({"left": format!("{:?}", left.schema().fields().iter().map(|f| format!("{}:{}", f.name(), f.data_type())).collect::<Vec<_>>()), "right": format!("{:?}", right.schema().fields().iter().map(|f| format!("{}:{}", f.name(), f.data_type())).collect::<Vec<_>>()), "overlapping_columns": overlap});
+    if let Some(r) = cx.guard(&format!("merge{pre}"), || left.merge(&right)) {
+        match r {
+            Ok(m) => {
+                let got: Vec<Cell> = batch_cells(&m).into_iter().map(Cell::Struct).collect();
+                if got != want {
+                    let pos = got.iter().zip(want.iter()).position(|(a, b)| a != b).unwrap_or(0);
+                    let names: Vec<String> = m.schema().fields().iter().map(|f| f.name().clone()).collect();
+                    let mut uniq = names.clone();
+                    uniq.sort();
+                    uniq.dedup();
+                    let cls = if uniq.len() != names.len() { "duplicate-column" } else if m.num_columns() != want.first().map(|c| if let Cell::Struct(k) = c { k.len() } else { 0 }).unwrap_or(m.num_columns()) { "columns" } else { "values" };
+                    let cls = if cls == "duplicate-column" { cls.to_string() } else { format!("{cls}{pre}") };
+                    cx.bad(&format!("merge-{cls}"), "merge result differs from the name-based merge model", json!({"inputs": desc, "row": pos, "expected": want.get(pos).map(|c| c.render()), "got": got.get(pos).map(|c| c.render()), "output_columns": names}));
+                } else {
+                    cx.report.count("merges_compared", 1);
+                }
+            }
+            Err(e) => cx.bad("merge-err", "merge of two batches with the same row count failed", json!({"inputs": desc, "error": e.to_string()})),
+        }
+    }
+    // merge_with_schema against the schema of the full batch: must reproduce the full batch
+    let full = batch_cells(batch);
+    if let Some(r) = cx.guard(&format!("merge_with_schema{pre}"), || left.merge_with_schema(&right, batch.schema().as_ref())) {
+        match r {
+            Ok(m) => {
+                let got = batch_cells(&m);
+                if got != full {
+                    let pos = got.iter().zip(full.iter()).position(|(a, b)| a != b).unwrap_or(0);
+                    cx.bad(&format!("merge_with_schema-values{pre}"), "merge_with_schema of the two halves of a batch under the batch's schema differs from the batch", json!({"inputs": desc, "row": pos, "expected": full.get(pos).map(|c| Cell::Struct(c.clone()).render()), "got": got.get(pos).map(|c| Cell::Struct(c.clone()).render())}));
+                } else {
+                    cx.report.count("schema_merges_compared", 1);
+                }
+            }
+            Err(e) => cx.bad("merge_with_schema-err", "merge_with_schema failed", json!({"inputs": desc, "error": e.to_string()})),
+        }
+    }
+}
+
+// ---------------------------------------------------------------------------------------------
+// JSON
+// ---------------------------------------------------------------------------------------------
+
+fn gen_json(rng: &mut Rng, depth: usize) -> Value {
+    let leaf = depth == 0 || rng.chance(1, 3);
+    if leaf {
+        return match rng.below(8) {
+            0 => Value::Null,
+            1 => json!(rng.bool()),
+            2 => json!(rng.range(-1000, 1000)),
+            3 => json!(rng.next_u64() as i64),
+            4 => json!(rng.next_u64()),
+            5 => json!((rng.f64() - 0.5) * 10f64.powi(rng.range(-8, 8) as i32)),
+            6 => json!(gen_str(rng)),
+            _ => json!(rng.range(0, 3) as f64 + 0.5),
+        };
+    }
+    if rng.bool() {
+        Value::Array((0..rng.urange(0, 4)).map(|_| gen_json(rng, depth - 1)).collect())
+    } else {
+        let mut m = serde_json::Map::new();
+        for _ in 0..rng.urange(0, 4) {
+            m.insert(gen_key(rng), gen_json(rng, depth - 1));
+        }
+        Value::Object(m)
+    }
+}
+
+fn gen_key(rng: &mut Rng) -> String {
+    rng.pick(&["a", "b", "key", "name", "x1", "Z", "long_key_name", "k2"]).to_string()
+}
+
+fn gen_str(rng: &mut Rng) -> String {
+    let pool = ["", "plain", "with space", "quote\"inside", "back\\slash", "uni-é-ß-漢", "emoji-😀", "new\nline", "tab\t", "\u{1}ctl", "/slash", "null", "123"];
+    let mut s = rng.pick(&pool).to_string();
+    if rng.chance(1, 4) {
+        s.push_str(&"x".repeat(rng.urange(1, 50)));
+    }
+    s
+}
+
+fn json_eq(a: &Value, b: &Value) -> bool {
+    match (a, b) {
+        (Value::Number(x), Value::Number(y)) => {
+            if let (Some(i), Some(j)) = (x.as_i64(), y.as_i64()) {
+                return i == j;
+            }
+            if let (Some(i), Some(j)) = (x.as_u64(), y.as_u64()) {
+                return i == j;
+            }
+            match (x.as_f64(), y.as_f64()) {
+                (Some(f), Some(g)) => f == g || (f - g).abs() <= f.abs() * 1e-15,
+                _ => false,
+            }
+        }
+        (Value::Array(x), Value::Array(y)) => x.len() == y.len() && x.iter().zip(y).all(|(p, q)| json_eq(p, q)),
+        (Value::Object(x), Value::Object(y)) => x.len() == y.len() && x.iter().all(|(k, v)| y.get(k).map(|w| json_eq(v, w)).unwrap_or(false)),
+        _ => a == b,
+    }
+}
+
+/// random path into the document + model value
+fn gen_path(rng: &mut Rng, doc: &Value) -> (String, Option<Value>) {
+    let mut path = String::from("$");
+    let mut cur = Some(doc.clone());
+    for _ in 0..rng.urange(1, 3) {
+        match cur.clone() {
+            Some(Value::Object(m)) if !m.is_empty() && rng.chance(4, 5) => {
+                let k = m.keys().nth(rng.usize_below(m.len())).unwrap().clone();
+                path.push_str(&format!(".{k}"));
+                cur = m.get(&k).cloned();
+            }
+            Some(Value::Array(a)) if !a.is_empty() && rng.chance(4, 5) => {
+                let i = rng.usize_below(a.len());
+                path.push_str(&format!("[{i}]"));
+                cur = a.get(i).cloned();
+            }
+            Some(Value::Object(_)) | None => {
+                path.push_str(".missing");
+                cur = None;
+            }
+            Some(Value::Array(a)) => {
+                path.push_str(&format!("[{}]", a.len() + 2));
+                cur = None;
+            }
+            Some(_) => break,
+        }
+    }
+    (path, cur)
+}
+
+fn check_json(cx: &Ctx, rng: &mut Rng, corrupt: bool) {
+    let n = rng.urange(1, 12);
+    let docs: Vec<Option<Value>> = (0..n).map(|_| if rng.chance(1, 6) { None } else { Some(gen_json(rng, 4)) }).collect();
+    let texts: Vec<Option<String>> = docs.iter().map(|d| d.as_ref().map(|v| if rng.bool() { v.to_string() } else { serde_json::to_string_pretty(v).unwrap() })).collect();
+    // scalar encode / decode
+    for (d, t) in docs.iter().zip(texts.iter()) {
+        let (Some(d), Some(t)) = (d, t) else { continue };
+        match cx.guard("encode_json", || encode_json(t).map_err(|e| e.to_string())) {
+            Some(Ok(b)) => match cx.guard("decode_json", || decode_json(&b).map_err(|e| e.to_string())) {
+                Some(Ok(s)) => {
+                    let s = if corrupt { s.replacen('1', "2", 1).replacen("true", "false", 1).replacen('a', "b", 1) } else { s };
+                    match serde_json::from_str::<Value>(&s) {
+                        Ok(v) if json_eq(&v, d) => cx.report.count("json_documents_compared", 1),
+                        Ok(v) => cx.bad("json-roundtrip-values", "JSON -> JSONB -> JSON changed the document", json!({"input": t, "decoded": s, "decoded_value": v})),
+                        Err(e) => cx.bad("json-roundtrip-invalid", "decoded JSONB is not valid JSON", json!({"input": t, "decoded": s, "error": e.to_string()})),
+                    }
+                }
+                Some(Err(e)) => cx.bad("json-decode-err", "decode_json failed on encode_json's output", json!({"input": t, "error": e})),
+                None => {}
+            },
+            Some(Err(e)) => cx.bad("json-encode-err", "encode_json rejected a valid JSON document", json!({"input": t, "error": e})),
+            None => {}
+        }
+    }
+    // array level
+    let sarr = StringArray::from(texts.clone());
+    let sarr = if rng.bool() && sarr.len() > 2 { sarr.slice(1, sarr.len() - 1) } else { sarr };
+    let skip = texts.len() - sarr.len();
+    let Some(Ok(ja)) = cx.guard("JsonArray::try_from", || JsonArray::try_from(&sarr)) else {
+        cx.bad("jsonarray-err", "JsonArray::try_from(StringArray) failed on valid documents", json!({}));
+        return;
+    };
+    if ja.len() != sarr.len() {
+        cx.bad("jsonarray-len", "JsonArray has a different length than its input", json!({"in": sarr.len(), "out": ja.len()}));
+        return;
+    }
+    for i in 0..ja.len() {
+        let d = &docs[i + skip];
+        if ja.is_null(i) != d.is_none() {
+            cx.bad("jsonarray-validity", "JsonArray validity differs from the input", json!({"row": i}));
+            continue;
+        }
+        let Some(d) = d else {
+            if let Ok(Some(x)) = ja.json_path(i, "$.a") {
+                cx.bad("jsonpath-null-row", "json_path on a null row returned a value", json!({"got": x}));
+            }
+            continue;
+        };
+        match ja.value(i) {
+            Ok(s) => {
+                if !serde_json::from_str::<Value>(&s).map(|v| json_eq(&v, d)).unwrap_or(false) {
+                    cx.bad("jsonarray-value", "JsonArray::value differs from the input document", json!({"expected": d, "got": s}));
+                }
+            }
+            Err(e) => cx.bad("jsonarray-value-err", "JsonArray::value failed", json!({"error": e.to_string()})),
+        }
+        for _ in 0..3 {
+            let (path, model) = gen_path(rng, d);
+            match cx.guard("json_path", || ja.json_path(i, &path)) {
+                Some(Ok(got)) => {
+                    let ok = match (&got, &model) {
+                        (None, None) => true,
+                        (Some(g), Some(m)) => serde_json::from_str::<Value>(g).map(|v| json_eq(&v, m)).unwrap_or(false),
+                        _ => false,
+                    };
+                    if ok {
+                        cx.report.count("json_paths_compared", 1);
+                        if model.is_some() {
+                            cx.report.nontrivial(fnv(format!("jsonpath|{}|{}", path.matches('.').count(), path.matches('[').count()).as_bytes()));
+                        }
+                    } else {
+                        cx.bad("jsonpath-values", "JSON path extraction differs from walking the document", json!({"doc": d, "path": path, "expected": model, "got": got}));
+                    }
+                }
+                Some(Err(e)) => cx.bad("jsonpath-err", "JSON path extraction failed on a valid path", json!({"doc": d, "path": path, "error": e.to_string()})),
+                None => {}
+            }
+        }
+    }
+    if let Some(Ok(back)) = cx.guard("to_arrow_json", || ja.to_arrow_json()) {
+        let b = back.as_any().downcast_ref::<StringArray>();
+        let ok = b.map(|b| b.len() == ja.len() && (0..b.len()).all(|i| match &docs[i + skip] {
+            None => b.is_null(i),
+            Some(d) => b.is_valid(i) && serde_json::from_str::<Value>(b.value(i)).map(|v| json_eq(&v, d)).unwrap_or(false),
+        })).unwrap_or(false);
+        if !ok {
+            cx.bad("to_arrow_json-values", "to_arrow_json differs from the input documents", json!({}));
+        }
+    }
+}
+
+// ---------------------------------------------------------------------------------------------
+
+fn one_case(report: &Report, seed: u64, case: u64, corrupt: bool) {
+    let mut rng = Rng::for_case(seed, (13u64 << 40) + case);
+    let cx = Ctx { report, seed, case };
+    let n = *rng.pick(&[0usize, 1, 2, 5, 17, 64, 200]);
+    let ncols = rng.urange(1, 4);
+    let mut counter = 0i64;
+    let mut fields = vec![];
+    let mut cols = vec![];
+    let extra = rng.urange(0, 5);
+    let (off, len) = if n + extra > 0 { let o = rng.urange(0, extra); (o, n.min(n + extra - o)) } else { (0, 0) };
+    for i in 0..ncols {
+        let dt = gen_type(&mut rng, 3);
+        let a = gen_array(&mut rng, &dt, n + extra, &mut counter).slice(off, len);
+        fields.push(Field::new(format!("c{i}"), dt, true));
+        cols.push(a);
+    }
+    let batch = match RecordBatch::try_new(Arc::new(Schema::new(fields)), cols.clone()) {
+        Ok(b) => b,
+        Err(e) => {
+            report.harness_error(&format!("C40 case {case}: cannot build batch: {e}"));
+            return;
+        }
+    };
+    let before = report.n_violations();
+    let step = |name: &str, f: &mut dyn FnMut()| {
+        if let Err((m, l)) = crate::quiet::catch(|| f()) {
+            report.harness_error(&format!("C40 case {case} step {name}: unexpected panic outside the guarded helpers at {l}: {m}"));
+        }
+    };
+    for c in &cols {
+        let c = maybe_slice(&mut rng, c.clone());
+        step("deepcopy", &mut || check_deepcopy(&cx, &mut rng, &c, corrupt));
+        step("list", &mut || check_list_helpers(&cx, &c, corrupt));
+        step("struct", &mut || check_struct_helpers(&cx, &mut rng, &c));
+    }
+    step("batch", &mut || check_batch_helpers(&cx, &mut rng, &batch, corrupt));
+    if !corrupt {
+        step("merge", &mut || check_merge(&cx, &mut rng, &batch));
+    }
+    step("json", &mut || check_json(&cx, &mut rng, corrupt));
+    let _ = before;
+    let sig = format!("{}|{}|{}", batch.schema().fields().iter().map(|f| type_class(f.data_type())).collect::<Vec<_>>().join(","), (n as f64 + 1.0).log2() as u32, off > 0);
+    report.case(if n > 1 { Some(fnv(sig.as_bytes())) } else { None });
+}
+
+pub fn run(args: &Args) -> i32 {
+    if args.extra.contains_key("selftest") {
+        // corrupt observations: the oracle must fire
+        std::env::set_var("VERIF_EVIDENCE_OUT", format!("{}/work/selftest-evidence-C40.json", vmon::report::verif_root()));
+        let r = Report::new(args, "exploration", "selftest", (30, 30));
+        for i in 0..60 {
+            one_case(&r, args.seed, i, true);
+        }
+        let n = r.n_violations();
+        println!("SELFTEST C40 distinct violation classes raised on corrupted observations: {n} (expected >= 4: deep copy, list filter, take, json)");
+        return if n >= 4 { 0 } else { 2 };
+    }
+    let report = Report::new(
+        args,
+        "exploration",
+        "Random record batches of 1-4 columns of random nested types (depth<=3 over struct / list / large list / fixed-size list / primitives / utf8 / bool) with nulls at every level, garbage behind null lists, list offsets not starting at 0 / not covering the child, every column sliced; checked helpers: deep_copy_array(_sliced), deep_copy_nulls, deep_copy_batch(_sliced), shrink_to_fit, take (random indices with repeats), project_by_schema (random nested sub-schema, reordered), merge and merge_with_schema (batch split into two halves that share struct ancestors, some columns on both sides), ListArrayExt::{trimmed_values, filter_garbage_nulls}, StructArrayExt::{pushdown_nulls, normalize_slicing (arrow-cpp style offset)}, JSON text -> JSONB -> text, JsonArray value / json_path / to_arrow_json vs serde_json. Non-trivial iff >1 row; distinct by (column type classes, log2 rows, sliced).",
+        (45, 600),
+    )
+    .with_min_nontrivial(200);
+    report.assume("merge inputs carry identical validity / offsets on shared struct and list ancestors (two column groups of the same rows); merging structs whose validity differs is outside the model");
+    if let Some(c) = args.extra.get("case").and_then(|c| c.parse::<u64>().ok()) {
+        // debugging aid: one case, default panic hook
+        let _ = std::panic::take_hook();
+        std::env::set_var("VERIF_EVIDENCE_OUT", format!("{}/work/case-evidence-C40.json", vmon::report::verif_root()));
+        one_case(&report, args.seed, c, false);
+        return report.finish();
+    }
+    let threads = crate::quiet::threads();
+    let n_cases: u64 = args.tier.pick(6000, 300_000);
+    let next = AtomicU64::new(0);
+    std::thread::scope(|s| {
+        for _ in 0..threads {
+            s.spawn(|| loop {
+                let i = next.fetch_add(1, Ordering::Relaxed);
+                if i >= n_cases || !report.time_left() {
+                    break;
+                }
+                if let Err((m, l)) = crate::quiet::catch(|| one_case(&report, args.seed, i, false)) {
+                    report.harness_error(&format!("C40 case {i}: unexpected panic outside the guarded helpers at {l}: {m}"));
+                }
+            });
+        }
+    });
+    report.finish()
 }
